@@ -21,6 +21,8 @@
 //	p9 jh jid user pw oph   => sched=0|1 <join result...>   forced schedule of DESIGN C10 / finding P9
 //	whipdl                  => done|deadlock                 forced schedule of finding P14 (C13)
 //	shutdowndl              => done|deadlock                 group.Shutdown with a WHIP member, in a child process (C13)
+//	loopstress nc np n      => ok|stuck:...|env:...          the real clientLoop against nc x np producers x n actions, then a
+//	                                                          kick that must be seen (C13 lost wakeup; loopstress.go, child process)
 //
 // nb/exp are offsets in seconds from now (never near 0).  user `*` is the
 // wildcard user; pw `*` in a user entry is a password of type "wildcard"; pw `-`
@@ -579,6 +581,24 @@ func (e *eng) Exec(op []string) string {
 			return "fail:child"
 		}
 		return strings.TrimSpace(string(out))
+	case "loopstress":
+		// a stuck client loop (and the goroutines of an HTTP server) must not poison the harness: child process
+		cmd := exec.Command(os.Args[0], append([]string{"child-loopstress"}, op[1:]...)...)
+		var out []byte
+		var err error
+		fin := make(chan struct{})
+		go func() { out, err = cmd.Output(); close(fin) }()
+		select {
+		case <-fin:
+		case <-time.After(5 * time.Minute):
+			cmd.Process.Kill()
+			<-fin
+			return "fail:child-timeout"
+		}
+		if err != nil {
+			return "fail:child"
+		}
+		return strings.TrimSpace(string(out))
 	}
 	panic("unknown op " + op[0])
 }
@@ -790,6 +810,15 @@ func gen(t *common.Trace, e common.Engine, r *common.Rng, thorough bool) {
 	t.Case("shutdowndl")
 	e.Reset()
 	common.Do(t, e, "shutdowndl")
+	// the real client loop against concurrent producers, then a kick that must be seen (C13: no lost wakeup)
+	t.Case("loopstress")
+	e.Reset()
+	common.Do(t, e, "loopstress 8 4 200000")
+	if thorough {
+		for _, p := range []string{"16 2 200000", "4 8 200000", "2 16 400000", "8 4 200000", "8 4 200000"} {
+			common.Do(t, e, "loopstress "+p)
+		}
+	}
 	// overlapping joins with a slow password check against max-clients (C10: capacity under every interleaving)
 	t.Case("racejoin")
 	e.Reset()
@@ -1067,6 +1096,10 @@ func main() {
 	log.SetOutput(io.Discard)
 	if len(os.Args) >= 2 && os.Args[1] == "child-shutdown" {
 		childShutdown()
+		return
+	}
+	if len(os.Args) >= 2 && os.Args[1] == "child-loopstress" {
+		childLoopStress(os.Args[2:])
 		return
 	}
 	if len(os.Args) >= 2 && os.Args[1] == "stress" {
